@@ -401,6 +401,110 @@ def config_round_trip(ctx, cloud):
         ctx.add(core.decided('C13/%s/%s/billing-relevant-fields-present' % (cloud, cls), {'cores', 'job_private', 'resources'} <= set(cfg.fields), repr(sorted(cfg.fields)), kind='vacuity'))
 
 
+MEMORY_HELPERS = {
+    # cloud: (path, the helper that produces the memory figure of a pool job, the per-core table lookup it uses, parameters of the lookup)
+    'gcp': ('batch/batch/cloud/gcp/resource_utils.py', 'gcp_cores_mcpu_to_memory_bytes', 'gcp_worker_memory_per_core_mib', ('machine_family', 'worker_type')),
+    'azure': ('batch/batch/cloud/azure/resource_utils.py', 'azure_cores_mcpu_to_memory_bytes', 'azure_worker_memory_per_core_mib', ('worker_type',)),
+}
+MIB = 1024 * 1024
+
+
+def memory_share(ctx, cloud):
+    """(M) <cloud>_cores_mcpu_to_memory_bytes - the function that produces the memory figure written into the spec of (and
+    billed to) every pool job, called by PoolConfig.convert_requests_to_resources and the front end: for ALL mcpu >= 0 and ANY
+    per-core table value P > 0 (MiB; the lookup is an uninterpreted function of the worker type here, its real values are
+    checked to be positive integers below) the real body returns exactly the per-core share
+         memory(mcpu) = floor(mcpu * P * 2**20 / 1000)
+    hence memory(a) + memory(b) <= memory(a + b) (the jobs packed on a worker never add up to more memory than the worker's
+    cores * P MiB - with R2 of GCPMemoryResource this is the memory half of the packing argument) and
+    memory(cores * 1000) = cores * P * 2**20 (a job using the whole worker is given, and billed, the whole worker's memory).
+    Floats are reals (the quotient mcpu / 1000 is exact in binary floating point for the quarter-core multiples the front end
+    admits; recorded as an assumption)."""
+    path, helper, lookup, lparams = MEMORY_HELPERS[cloud]
+    cx = ClassIndex([path])
+    if helper not in cx.funcs or lookup not in cx.funcs:
+        raise pyvc.Undecided('anchor-moved: %s / %s not found in %s' % (helper, lookup, path))
+    P = z3.Function('per_core_mib_' + cloud, *([pyvc.U] * len(lparams) + [z3.IntSort()]))
+    seen = []
+
+    def per_core(eng, st, args, kw, node):
+        vals = [pyvc.to_z3(a, 'U') for a in list(args) + [kw[k] for k in lparams[len(args):]]]
+        seen.append(vals)
+        return P(*vals)
+
+    inl = Inliner(ctx, cx, calls={lookup: per_core})
+    inl.contract_kw = {'float_as_real': True}
+    _, hfn = cx.funcs[helper]
+    hparams = [a.arg for a in hfn.args.args]
+    ctx.add(core.decided('C13/%s/%s/parameters-are-mcpu-and-the-worker-type' % (cloud, helper), hparams == ['mcpu'] + list(lparams), repr(hparams), kind='vacuity'))
+    wt = [z3.Const('mem_%s' % p, pyvc.U) for p in lparams]
+    p_ = P(*wt)
+    a, b, cores = z3.Int('mcpu_a'), z3.Int('mcpu_b'), z3.Int('worker_cores')
+    hyp = [a >= 0, b >= 0, cores >= 1, p_ >= 1]
+    ctx.under_contract(path, helper)
+
+    def memory(mcpu, tag):
+        outs = inl.run_function(helper, [mcpu] + wt, pc=hyp, label='%s[%s]' % (helper, tag))
+        raised, val = [], None
+        for kind, payload, s in outs:
+            cond = z3.And(*s.pc[len(hyp):]) if len(s.pc) > len(hyp) else z3.BoolVal(True)
+            if kind == 'raise':
+                raised.append(cond)
+                continue
+            if payload is None:
+                raise pyvc.Undecided('%s returns None on some path' % helper)
+            v = pyvc.to_z3(payload, 'int')
+            if not z3.is_int(v):
+                raise pyvc.Undecided('%s does not return an int: %r' % (helper, v))
+            val = v if val is None else z3.If(cond, v, val)
+        if val is None:
+            raise pyvc.Undecided('%s has no normal outcome' % helper)
+        return (z3.Or(*raised) if raised else z3.BoolVal(False)), val
+
+    (ra, ma), (rb, mb), (rab, mab), (rw, mw) = memory(a, 'a'), memory(b, 'b'), memory(a + b, 'a+b'), memory(cores * 1000, 'whole')
+    ctx.add(core.decided('C13/%s/%s/uses-the-per-core-table-of-its-worker-type' % (cloud, helper), bool(seen) and all(all(z3.eq(x, y) for x, y in zip(v, wt)) for v in seen), repr(seen[:2]), kind='vacuity'))
+    name = 'C13/%s/%s/' % (cloud, helper)
+    ctx.add(core.valid(name + 'never-raises-for-non-negative-mcpu', hyp, z3.Not(z3.Or(ra, rw))))
+    B = p_ * MIB
+    ctx.add(core.valid(name + 'memory-is-exactly-the-per-core-share-rounded-down', hyp, z3.And(1000 * ma <= a * B, a * B < 1000 * (ma + 1))))
+    ctx.add(core.valid(name + 'two-jobs-memory-at-most-memory-of-their-sum', hyp, ma + mb <= mab))
+    ctx.add(core.valid(name + 'whole-worker-memory-is-cores-times-the-per-core-share', hyp, mw == cores * B))
+    ctx.add(core.valid(name + 'memory-non-negative', hyp, ma >= 0))
+    # the same three clauses for every value the real table holds (linear arithmetic: decided without the nonlinear product)
+    for key, mib in per_core_table(ctx, cloud, cx, lookup):
+        h2 = hyp + [p_ == mib]
+        ctx.add(core.valid(name + 'two-jobs-memory-at-most-memory-of-their-sum/%s' % key, h2, ma + mb <= mab))
+        ctx.add(core.valid(name + 'whole-worker-memory-is-cores-times-the-per-core-share/%s' % key, h2, mw == cores * mib * MIB))
+        ctx.add(core.valid(name + 'memory-is-exactly-the-per-core-share-rounded-down/%s' % key, h2, z3.And(1000 * ma <= a * mib * MIB, a * mib * MIB < 1000 * (ma + 1))))
+    ctx.add(core.satisfiable(name + 'canary/memory-can-be-positive', hyp + [ma > 0]))
+    ctx.add(core.satisfiable(name + 'canary/memory-not-always-the-whole-core', hyp + [ma < B]))
+
+
+def per_core_table(ctx, cloud, cx, lookup):
+    """the values the real per-core lookup can return, from the real source: [(key text, MiB)]; obligation: positive ints"""
+    path, fn = cx.funcs[lookup]
+    vals = []
+    if cloud == 'gcp':
+        tree = pyast.parse(core.read_repo(path))
+        tab = [n.value for n in tree.body if isinstance(n, pyast.Assign) and any(isinstance(t, pyast.Name) and t.id == 'MEMORY_PER_CORE_MIB' for t in n.targets)]
+        returns = [pyast.unparse(n.value) for n in pyast.walk(fn) if isinstance(n, pyast.Return) and n.value is not None]
+        ctx.add(core.decided('C13/gcp/%s/returns-the-table-entry-of-the-worker-type' % lookup, len(tab) == 1 and isinstance(tab[0], pyast.Dict) and returns == ['MEMORY_PER_CORE_MIB[machine_worker_key]'] and any(pyast.unparse(n) == 'machine_worker_key = (machine_family, worker_type)' for n in fn.body), repr(returns), kind='scan'))
+        if len(tab) == 1 and isinstance(tab[0], pyast.Dict):
+            for k, v in zip(tab[0].keys, tab[0].values):
+                try:
+                    vals.append((pyast.unparse(k), pyast.literal_eval(v)))
+                except ValueError:
+                    vals.append((pyast.unparse(k), None))
+    else:
+        inl = Inliner(ctx, cx)
+        w = z3.Const('wt_any', pyvc.U)
+        for kind, payload, s in inl.run_function(lookup, [w], label='%s[values]' % lookup):
+            if kind == 'value':
+                vals.append(('%sMiB' % (payload,), payload if isinstance(payload, int) and not isinstance(payload, bool) else None))
+    ctx.add(core.decided('C13/%s/%s/per-core-memory-values-are-positive-integers' % (cloud, lookup), bool(vals) and all(isinstance(v, int) and v >= 1 for _, v in vals), repr(vals), kind='vc'))
+    return [(k.replace(' ', ''), v) for k, v in vals if isinstance(v, int) and v >= 1]
+
+
 def native_witness(ctx):
     """concrete search on the real code, usable when the contracts no longer apply to a changed source (vc/check.py)"""
     return core.run_native(open(os.path.join(os.path.dirname(__file__), 'native', 'c13_replay.py')).read(), {})
@@ -465,5 +569,7 @@ def build(ctx):
         config_round_trip(ctx, cloud)
     quantified_resources(ctx)
     packing_lemma(ctx)
+    for cloud in MEMORY_HELPERS:
+        memory_share(ctx, cloud)
     ctx.witness_search = lambda: core.run_native(open(os.path.join(os.path.dirname(__file__), 'native', 'c13_replay.py')).read(), {})
     ctx.assume('resource quantities are Python ints (unbounded); constructor arguments of int type are non-negative (disk sizes, accelerator counts)')
